@@ -18,7 +18,8 @@ RULE = ("seeded random keys (1-3 keys of int/float/str/bool/datetime/categorical
         "identical to the result for that input alone; non-trivial = >= 2 labels not first appearing in sorted order; distinct = distinct (dataset, shape, flags)")
 ASSUMPTIONS = ["ordering of heterogeneous label types is pandas'"]
 FNS = ["size", "count", "sum", "mean", "min", "max", "first", "last"]
-SHAPES = ["ndarray", "series_named", "series_unnamed", "list", "dict", "frame", "array2d", "polars_series"]
+SHAPES = ["ndarray", "series_named", "series_unnamed", "series_named_0", "list", "dict", "frame", "frame_intcols", "array2d", "polars_series"]
+REPRS = ["plain", "plain", "plain", "small", "arrowchunks"]
 
 
 def setup_worker():
@@ -37,9 +38,19 @@ def gen_cases(tier, rng):
         yield fix_case(c)
     n = 2000 if tier == "quick" else 30000
     for _ in range(n):
-        ds = gen_dataset(rng, max_rows=12, max_labels=4, vdt="f64", mask_kinds=("none", "none", "b", "s"), min_rows=1)
+        repr_ = rng.choice(REPRS)
+        if repr_ == "plain":
+            ds = gen_dataset(rng, max_rows=12, max_labels=4, vdt="f64", mask_kinds=("none", "none", "b", "s"), min_rows=1)
+        else:
+            # chunk-wise factorization (threshold scaled to 8 rows) / pre-chunked arrow keys: single key, labels in any first-appearance order
+            ds = gen_dataset(rng, max_rows=26, max_labels=5, nkeys=1, key_classes=[rng.choice(["float", "str", "datetime", "int"])], vdt="f64",
+                             mask_kinds=("none", "none", "b", "s"), min_rows=9 if repr_ == "small" else 2)
+            if repr_ == "arrowchunks":
+                k = len(ds["vals"])
+                cuts = sorted(rng.randint(0, k) for _ in range(rng.choice([1, 2])))
+                ds["chunks"] = [b - a for a, b in zip([0] + cuts, cuts + [k])]
         yield {**ds, "fn": rng.choice(FNS), "shape": rng.choice(SHAPES), "ncols": rng.choice([1, 2, 3]), "observed_only": rng.random() < 0.7,
-               "key_container": rng.choice(["ndarray", "series", "list"])}
+               "key_container": rng.choice(["ndarray", "series", "list"]) if repr_ == "plain" else "ndarray", "repr": repr_}
 
 
 def evaluate(case, drv):
@@ -66,7 +77,8 @@ def evaluate(case, drv):
     for k in row_keys:
         if k is not None and k not in first_app:
             first_app.append(k)
-    res = dict(tags=[f"fn:{fn}", f"shape:{shape}", f"nkeys:{nk}", f"sort:{case['sort']}", f"observed_only:{case['observed_only']}"] + [f"kc:{c}" for c in classes],
+    res = dict(tags=[f"fn:{fn}", f"shape:{shape}", f"nkeys:{nk}", f"sort:{case['sort']}", f"observed_only:{case['observed_only']}", f"repr:{case.get('repr', 'plain')}"]
+               + [f"kc:{c}" for c in classes],
                size=n, key=key, nontrivial=len(first_app) >= 2 and first_app != sorted(first_app), bucket=(fn, shape, nk, case["sort"], case["observed_only"], tuple(classes)))
 
     def bad(exp, act, **kw):
@@ -83,6 +95,10 @@ def evaluate(case, drv):
         values, names_in, single = cols[0], [None], True
     elif shape == "series_named":
         values, names_in, single = pd.Series(cols[0], index=index, name="price"), ["price"], True
+    elif shape == "series_named_0":
+        values, names_in, single = pd.Series(cols[0], index=index, name=0), [0], True
+    elif shape == "frame_intcols":
+        values, names_in, single = pd.DataFrame(np.column_stack(cols) if n else np.empty((0, len(cols))), index=index), list(range(len(cols))), False
     elif shape == "series_unnamed":
         values, names_in, single = pd.Series(cols[0], index=index), [None], True
     elif shape == "polars_series":
@@ -99,12 +115,25 @@ def evaluate(case, drv):
     mask = None
     if m is not None:
         mask = np.array(m[1], dtype=bool) if m[0] == "b" else slice(m[1], m[2])
+    from groupby_lib.groupby import core as core_mod
+    old_thr = core_mod.THRESHOLD_FOR_CHUNKED_FACTORIZE
     try:
-        gb = GroupBy(keys if case["key_container"] != "list" or nk > 1 else keys, sort=case["sort"])
+        if case.get("repr") == "small":
+            core_mod.THRESHOLD_FOR_CHUNKED_FACTORIZE = 8
+        elif case.get("repr") == "arrowchunks":
+            import pyarrow as pa
+            typ = {"int": pa.int64(), "float": pa.float64(), "str": pa.string(), "datetime": pa.timestamp("ns")}[classes[0]]
+            whole = pa.array(np.asarray(keys), type=typ, from_pandas=True)
+            offs = [sum(case["chunks"][:j]) for j in range(len(case["chunks"]))]
+            keys = pa.chunked_array([whole.slice(o, l) for o, l in zip(offs, case["chunks"])], type=typ)
+        gb = GroupBy(keys, sort=case["sort"])
+        res["tags"].append("chunked-keys" if gb.key_is_chunked else "flat-keys")
         kw = dict(mask=mask, observed_only=case["observed_only"])
         r = gb.size(**kw) if fn == "size" else getattr(gb, fn)(values, **kw)
     except Exception as e:  # noqa
         return bad("a result", f"error:{type(e).__name__}: {str(e)[:200]}")
+    finally:
+        core_mod.THRESHOLD_FOR_CHUNKED_FACTORIZE = old_thr
     # ---- shape ----
     if fn == "size" or single:
         if not isinstance(r, pd.Series):
@@ -187,6 +216,14 @@ def shrink_candidates(case):
         c = {**case, "keys": [col[:i] + col[i + 1:] for col in case["keys"]], "vals": case["vals"][:i] + case["vals"][i + 1:]}
         if case["mask"] is not None and case["mask"][0] == "b":
             c["mask"] = ("b", case["mask"][1][:i] + case["mask"][1][i + 1:])
+        if case.get("chunks"):
+            ch, acc = list(case["chunks"]), 0
+            for j, l in enumerate(ch):
+                if i < acc + l:
+                    ch[j] -= 1
+                    break
+                acc += l
+            c["chunks"] = ch
         yield c
     if len(case["keys"]) > 1:
         for j in range(len(case["keys"])):
